@@ -507,6 +507,17 @@ class SReal:
             hit = e.floor_memo.get(self.n.key())
             if hit is not None:
                 return hit
+        if getattr(e, "logic", "lira") == "nra":
+            # polynomial-real mode: no integer symbols; the floor is concretised by enumerating candidates under
+            # real-only constraints (forks over the feasible values)
+            for it in range(201):
+                kk = (it + 1) // 2 if it % 2 else -(it // 2)
+                if e.branch(z3.And(self.rel(lambda a, b: a >= b, kk), self.rel(lambda a, b: a < b, kk + 1))):
+                    r = SReal.const(kk)
+                    if self.d is ONE:
+                        e.floor_memo[self.n.key()] = r
+                    return r
+            raise OverflowError("floor out of the enumerated range")
         name = f"fl!{next(e.fresh)}"
         k = SReal.sym(name, isint=True)
         e.assume(z3.And(self.rel(lambda a, b: a >= b, k), self.rel(lambda a, b: a < b, k + 1)))
